@@ -91,6 +91,8 @@ def run_property(prop, scenarios, tier, seed, extra_assumptions=()):
                     rep.add_tlc(gres, f"GEN {sc['name']}")
                     if not gres.ok and not gens:
                         rep.machinery.append(f"GEN {sc['name']} failed: {gres.violation} {gres.error_text[:300]}")
+                    if len(gens) > 1500:  # replay a seeded sample of the enumerated behaviours
+                        gens = rng.sample(gens, 1500)
                     got = eng.replay_scripts(cfg, gens, pool, tid0=tid)
                     for r in got:
                         r['origin'] = 'tlc-gen'
